@@ -78,7 +78,10 @@ class Job:
             mk = "pub fn mk<Z9: Src>(s: &mut Z9) -> TI { %s }" % arms[0]
         else:
             body = " ".join("%d => %s," % (i, a) for i, a in enumerate(arms[:-1])) + " _ => %s," % arms[-1]
-            mk = "pub fn mk<Z9: Src>(s: &mut Z9) -> TI { match s.pick(%d) { %s } }" % (NV, body)
+            if NV <= 255:
+                mk = "pub fn mk<Z9: Src>(s: &mut Z9) -> TI { match s.pick(%d) { %s } }" % (NV, body)
+            else:
+                mk = "pub fn mk<Z9: Src>(s: &mut Z9) -> TI { match s.pick16(%d) { %s } }" % (NV, body)
         oracle = "\n".join(x for u in us for x in u.kani_oracle)
         harness = "\n".join(x for u in us for x in u.kani_harness)
         replay = "\n    ".join(x for u in us for x in u.replay)
